@@ -4,6 +4,8 @@ import (
 	"bytes"
 	"fmt"
 	"net"
+	"strconv"
+	"strings"
 	"time"
 
 	"github.com/pion/turn/v5"
@@ -25,6 +27,11 @@ type RealClient struct {
 	Reads  []RecvRec
 	Writes []*writeRec
 	allocAt int64
+	allocStart int64
+	Stamp   int64
+	Genuine bool
+	allocDone bool
+	allocEnd  int64
 }
 
 type writeRec struct {
@@ -45,6 +52,40 @@ func (w *SrvWorld) startRealClient(spec ClientSpec) {
 	rc.sock = s
 	cfg := w.P.Cfg
 	w.lib("client-start", func() {
+		if spec.User == "@gen" {
+			// time-windowed credentials (C17), generated now with the real generator
+			d := time.Duration(cfg.Extra["cred_dur_s"]) * time.Second
+			var u, pw string
+			var err error
+			if cfg.Auth == "turnrest" {
+				u, pw, err = turn.GenerateLongTermTURNRESTCredentials(cfg.Secret, "alice", d)
+			} else {
+				u, pw, err = turn.GenerateLongTermCredentials(cfg.Secret, d)
+			}
+			if err != nil {
+				Fatalf("generate credentials: %v", err)
+			}
+			ts := u
+			if i := strings.IndexByte(ts, ':'); i >= 0 {
+				ts = ts[:i]
+			}
+			rc.Stamp, _ = strconv.ParseInt(ts, 10, 64)
+			rc.Genuine = true
+			switch cfg.Extra["cred_forge"] {
+			case 1: // a later timestamp with the old password
+				u = strconv.FormatInt(rc.Stamp+3600, 10) + u[len(ts):]
+				rc.Genuine = false
+			case 2: // password derived from another secret
+				_, pw, _ = turn.GenerateLongTermCredentials(cfg.Secret+"x", d)
+				rc.Genuine = false
+			}
+			spec.User, spec.Pass = u, pw
+			if rc.Genuine {
+				w.Mon.mu.Lock()
+				w.Mon.users[u] = pw
+				w.Mon.mu.Unlock()
+			}
+		}
 		c, err := turn.NewClient(&turn.ClientConfig{
 			STUNServerAddr: ustr(w.SrvAddr), TURNServerAddr: ustr(w.SrvAddr), Username: spec.User, Password: spec.Pass, Realm: cfg.Realm,
 			RTO: time.Duration(cfg.RTOms) * time.Millisecond, Conn: s, LoggerFactory: w.LF,
@@ -72,11 +113,14 @@ func (w *SrvWorld) execReal(rc *RealClient, op *Op) {
 	}
 	switch op.Kind {
 	case "alloc":
+		rc.allocStart = time.Now().Unix()
 		w.lib("alloc", func() {
 			conn, err := cli.Allocate()
 			w.e2eMu.Lock()
 			rc.Relay, rc.Err = conn, err
 			rc.allocAt = w.K.Now()
+			rc.allocDone = true
+			rc.allocEnd = time.Now().Unix()
 			w.e2eMu.Unlock()
 			if err != nil {
 				return
@@ -158,6 +202,19 @@ func (w *SrvWorld) checkE2E() {
 		return "beyond-nonce-hour"
 	}
 	for _, rc := range w.Real {
+		if rc.Stamp != 0 && rc.allocDone {
+			// C17 end to end
+			ok := rc.Err == nil
+			switch {
+			case !rc.Genuine && ok:
+				w.K.Violate(&Violation{Property: "C17", Class: "forged-authenticates", Key: kv("mutation", "e2e"), Detail: "a forged time-windowed credential obtained an allocation"})
+			case rc.Genuine && rc.allocEnd < rc.Stamp && !ok:
+				w.K.Violate(&Violation{Property: "C17", Class: "rejected-before-expiry", Key: kv("kind", "e2e"), Detail: fmt.Sprintf("Allocate with a genuine credential finished %d s before its expiry and failed: %v", rc.Stamp-rc.allocEnd, rc.Err)})
+			case rc.Genuine && rc.allocStart > rc.Stamp && ok:
+				w.K.Violate(&Violation{Property: "C17", Class: "accepted-after-expiry", Key: kv("kind", "e2e"), Detail: fmt.Sprintf("Allocate started %d s after the credential's expiry and succeeded", rc.allocStart-rc.Stamp)})
+			}
+			continue
+		}
 		if rc.Relay == nil {
 			if rc.Err != nil {
 				w.K.Violate(&Violation{Property: "C14", Class: "allocate-failed", Detail: fmt.Sprintf("real client %s could not allocate: %v", rc.Spec.ID, rc.Err)})
